@@ -140,6 +140,15 @@ def hash_inputs(fn):
     return sorted(used)
 
 
+def digest_shapes(key_fn, ck_fn):
+    """get_source_checksum returns the SHA-1 of the whole, unmodified source; get_cache_key that of name and '|'+filename"""
+    ck_ok = [_u(x) for x in _body(ck_fn)] == ["return sha1(source.encode('utf-8')).hexdigest()"]
+    key_ok = [" ".join(_u(x).split()) for x in _body(key_fn)] == [
+        "hash = sha1(name.encode('utf-8'))", "if filename is not None: hash.update(f'|{filename}'.encode())",
+        "return hash.hexdigest()"]
+    return key_ok, ck_ok
+
+
 def get_bucket_shape(fn):
     want = ["key = self.get_cache_key(name, filename)", "checksum = self.get_source_checksum(source)",
             "bucket = Bucket(environment, key, checksum)", "self.load_bytecode(bucket)", "return bucket"]
@@ -241,6 +250,23 @@ def fs_dump(fn):
     return steps
 
 
+def fs_default_pattern(init, namefn):
+    """default of FileSystemBytecodeCache(pattern=…) split at its single %s; entry file name = pattern % (bucket.key,)"""
+    args = init.args
+    names = [a.arg for a in args.args]
+    if "pattern" not in names:
+        raise Untranslatable("FileSystemBytecodeCache.__init__ has no pattern parameter")
+    d = args.defaults[names.index("pattern") - (len(names) - len(args.defaults))]
+    if not (isinstance(d, ast.Constant) and isinstance(d.value, str) and d.value.count("%s") == 1 and d.value.count("%") == 1):
+        raise Untranslatable("pattern default is not a string with exactly one %s")
+    if [_u(x) for x in _body(namefn)] != ["return os.path.join(self.directory, self.pattern % (bucket.key,))"]:
+        raise Untranslatable("_get_cache_filename is not join(directory, pattern % (key,))")
+    pre, post = d.value.split("%s")
+    if any(c in pre + post for c in "*?[]"):
+        raise Untranslatable("pattern default contains glob metacharacters")
+    return pre, post
+
+
 def fs_clear_pattern(fn):
     """clear() removes the files matching pattern % '*' in self.directory"""
     src = _u(fn)
@@ -302,11 +328,13 @@ def gen():
     key_in = hash_inputs(find_func(base, "get_cache_key"))
     ck_in = hash_inputs(find_func(base, "get_source_checksum"))
     gb_ok, _ = get_bucket_shape(find_func(base, "get_bucket"))
+    key_sha_ok, ck_sha_ok = digest_shapes(find_func(base, "get_cache_key"), find_func(base, "get_source_checksum"))
     set_ok = [_u(s) for s in _body(find_func(base, "set_bucket"))] == ["self.dump_bytecode(bucket)"]
     fs = find_class(tree, "FileSystemBytecodeCache")
     open_caught, uses_with = fs_load(find_func(fs, "load_bytecode"))
     dsteps = fs_dump(find_func(fs, "dump_bytecode"))
     clear_ok = fs_clear_pattern(find_func(fs, "clear"))
+    pat_pre, pat_post = fs_default_pattern(find_func(fs, "__init__"), find_func(fs, "_get_cache_filename"))
     mc = find_class(tree, "MemcachedBytecodeCache")
     mg = mc_guard(find_func(mc, "load_bytecode"), "get")
     ms = mc_guard(find_func(mc, "dump_bytecode"), "set")
@@ -374,6 +402,10 @@ def writeParts : List String := {strs(wsteps)}
 def keyInputs : List String := {strs(key_in)}
 def checksumInputs : List String := {strs(ck_in)}
 def getBucketShape : Bool := {lbool(gb_ok)}
+-- READ: get_source_checksum is `return sha1(source.encode("utf-8")).hexdigest()` (the whole source, nothing normalised away);
+-- get_cache_key hashes name and, if given, "|" + filename
+def checksumIsSha1OfWholeSource : Bool := {lbool(ck_sha_ok)}
+def keyIsSha1OfNameAndFilename : Bool := {lbool(key_sha_ok)}
 def setBucketDumps : Bool := {lbool(set_ok)}
 
 -- READ: BaseLoader.load: get_source; get_bucket(environment, name, filename, source); compile iff bucket.code is None;
@@ -409,6 +441,10 @@ def dumpSteps : List DumpStep := [
 
 -- READ: FileSystemBytecodeCache.clear removes exactly the directory entries matching `pattern % "*"`
 def clearUsesPattern : Bool := {lbool(clear_ok)}
+
+-- READ: the default `pattern` of FileSystemBytecodeCache, split at its %s; the entry's file name is pattern % (key,)
+def defaultPatternPre : String := {lstr(pat_pre)}
+def defaultPatternPost : String := {lstr(pat_post)}
 
 structure McGuard where
   func : String
